@@ -66,6 +66,8 @@ class Prop(core.Prop):
                     ioapi_u.recipe(nt=3, nl=2, nr=2, nc=3, nv=1, start=1, tstep=3000),
                     ioapi_u.recipe(nt=3, nl=2, nr=3, nc=2, nv=1, start=2, tstep=240000),
                     ioapi_u.recipe(nt=2, nl=1, nr=1, nc=2, nv=1, start=5, tstep=10000),
+                    # a weekly file: a step of 100 h or more (7 digits in HHMMSS form)
+                    ioapi_u.recipe(nt=3, nl=1, nr=1, nc=2, nv=1, start=1, tstep=1680000),
                     # a step with seconds (7 min 30 s) and a file whose time flags are not evenly spaced
                     ioapi_u.recipe(nt=4, nl=1, nr=2, nc=2, nv=1, start=0, tstep=730),
                     dict(ioapi_u.recipe(nt=5, nl=1, nr=2, nc=2, nv=1, start=3, tstep=10000), uneven=True)]
